@@ -329,10 +329,8 @@ def interpreted_rows(prog: Program, rows):
                 cls_q = {'other': q['StorySend'], 'create': q['RunningOrder'], 'delete': q['RunningOrderEnd'],
                          'sub': subs[0].qualname if subs else q['RunningOrder']}[k]
                 rid = 'RO-A' if (same_id or i != len(seq) - 1) else 'RO-B'
-                fields = {'_message_id': Const(i + 1), '_ro_id': Const(rid), '_mos_type': ClsV(cls_q),
-                          '_restore_fn': ExtV('symbolic-restore'), '_restore_args': TupleV((Const(f'src{i}'),))}
-                sym = st.new(ObjE(reader_cls.qualname, tuple(sorted(fields.items()))))
-                items.append(Ref('obj', sym))
+                rd, st = eng.make_reader(st, message_id=Const(i + 1), ro_id=Const(rid), mos_type=ClsV(cls_q), restore_args=TupleV((Const(f'src{i}'),)))
+                items.append(rd)
                 if k == 'create':
                     create_src.append(f'src{i}')
             lst = st.new(ListE('lit', len(items), len(items), items=tuple(items)))
